@@ -30,7 +30,10 @@ ALPHA = [((1, 0, 0), (0, 0, 0)), ((0, 1, 0), (0, 0, 0)), ((0, 0, 1), (0, 0, 0)),
          ((1, 1, 1), (0.004, 0, 0)), ((1, 0, 0), (0, -0.03, 0)), ((0, 1, 0), (0, 0, 0.2)), ((0, 0, 1), (0.5, 0, 0)),
          ((2, 0, 0), (0.03, 0.03, 0.03)), ((-1, 2, 1), (-0.004, 0, -0.03)), ((3, 1, 2), (0, 0, 0)), ((3, 1, 2), (0.2, -0.2, 0)),
          ((1000, 0, 0), (0, 0, 0)), ((999, -1000, 3), (0.004, 0, 0)), ((0, 2, -1), (0, 0, 0)), ((0, 2, -1), (-0.03, 0, 0)),
-         ((1, -1, 0), (0, 0, 0.004)), ((5, -3, 4), (0, 0, 0)), ((2, 2, 2), (0, 0, 0)), ((-1, -1, -1), (0, 0, 0))]
+         ((1, -1, 0), (0, 0, 0.004)), ((5, -3, 4), (0, 0, 0)), ((2, 2, 2), (0, 0, 0)), ((-1, -1, -1), (0, 0, 0)),
+         # the zero vector (zero-padded tables) and a spot next to the direct beam: their nearest integer hkl is (0, 0, 0); they are
+         # within tolerance like any other peak (they count, their error enters the mean) and add nothing to the normal equations
+         ((0, 0, 0), (0, 0, 0)), ((0, 0, 0), (0.004, 0, -0.003))]
 
 
 def ubis():
